@@ -15,6 +15,7 @@ import (
 
 	"github.com/plgd-dev/go-coap/v3/message"
 	"github.com/plgd-dev/go-coap/v3/message/codes"
+	coapsync "github.com/plgd-dev/go-coap/v3/pkg/sync"
 
 	"verifharness/internal/conns"
 	"verifharness/internal/hooks"
@@ -25,6 +26,31 @@ import (
 type Act struct {
 	A string `json:"a"`
 	T int    `json:"t"`
+	Y string `json:"y,omitempty"` // race: the event (ack | rst | piggy) that arrives while the sweep of tick T holds the entry it has just fetched
+}
+
+// the sweep goroutine of a "race" step parks at the map's hook between fetching an entry and acting on it
+var gates sync.Map // goroutine id -> *gate
+
+type gate struct {
+	arrived chan struct{}
+	release chan struct{}
+	once    sync.Once
+}
+
+func syncHook(ev string, _ any) {
+	if ev != "Range.unlocked" {
+		return
+	}
+	if g, ok := gates.Load(hooks.GID()); ok {
+		gt := g.(*gate)
+		first := false
+		gt.once.Do(func() { first = true })
+		if first {
+			close(gt.arrived)
+			<-gt.release
+		}
+	}
 }
 
 type Stim struct {
@@ -228,7 +254,8 @@ func runOne(st Stim) Trace {
 	nextMID := int32(20000)
 	for i, a := range steps {
 		mu.Lock()
-		curEv = i + 1
+		_ = i
+		curEv = len(tr.Ev) + 1
 		if a.A == "tick" {
 			curTick = a.T
 		}
@@ -237,6 +264,40 @@ func runOne(st Stim) Trace {
 		case "tick":
 			u.cc.CheckExpirations(base.Add(time.Duration(a.T)*time.Second - 50*time.Millisecond))
 			u.settle()
+		case "race":
+			// the sweep of tick T fetches the pending entry, then - before it acts on it - the answer arrives and is processed
+			// completely; only then does the sweep go on. The answer came first: nothing may be sent any more.
+			gt := &gate{arrived: make(chan struct{}), release: make(chan struct{})}
+			swept := make(chan struct{})
+			go func() {
+				defer close(swept)
+				gates.Store(hooks.GID(), gt)
+				defer gates.Delete(hooks.GID())
+				u.cc.CheckExpirations(base.Add(time.Duration(a.T)*time.Second - 50*time.Millisecond))
+			}()
+			select {
+			case <-gt.arrived:
+			case <-swept: // nothing pending: the sweep had no entry to fetch
+			case <-time.After(time.Second):
+			}
+			switch a.Y {
+			case "ack":
+				u.inject(memnet.Build(message.Acknowledgement, int(codes.Empty), mid, nil, nil, nil))
+			case "rst":
+				u.inject(memnet.Build(message.Reset, int(codes.Empty), mid, nil, nil, nil))
+			default:
+				u.inject(memnet.Build(message.Acknowledgement, int(codes.Content), mid, tok, nil, []byte("P")))
+			}
+			tr.Ev = append(tr.Ev, snap(Act{A: a.Y}))
+			mu.Lock()
+			curEv = len(tr.Ev) + 1
+			curTick = a.T
+			mu.Unlock()
+			gt.once.Do(func() {})
+			close(gt.release)
+			<-swept
+			u.settle()
+			a = Act{A: "tick", T: a.T}
 		case "ack":
 			u.inject(memnet.Build(message.Acknowledgement, int(codes.Empty), mid, nil, nil, nil))
 		case "rst":
@@ -257,12 +318,12 @@ func runOne(st Stim) Trace {
 	cancel()
 	hooks.WaitFor(conns.WD, func() bool { poll(); return ret != "none" })
 	mu.Lock()
-	curEv = len(steps) + 1
+	curEv = len(tr.Ev) + 1
 	curTick = 1000
 	mu.Unlock()
 	u.cc.CheckExpirations(base.Add(1000 * time.Second))
 	u.settle()
-	tr.Final = snap(Act{"end", 0})
+	tr.Final = snap(Act{A: "end"})
 	if tr.WFail {
 		// the connection is alive: its next request must go out (NSTART = 1: the failed request gave its slot back)
 		nctx, ncancel := context.WithCancel(context.Background())
@@ -297,6 +358,7 @@ func runOne(st Stim) Trace {
 
 // Run replays every stimulus.
 func Run(stimPath, out string) {
+	coapsync.VerifHook = syncHook
 	f, err := os.Open(stimPath)
 	if err != nil {
 		rec.Die("open: %v", err)
